@@ -37,6 +37,9 @@ RECV_BUFFER_WRITERS = {
     READER + '.return_all': 'hands the bytes after EOD back',
 }
 RAW_RECV_CALLERS = {IOC + '.buffered_recv', READER + '.recv_piece'}
+# the reader is driven through recv() only; its steps are internal
+READER_INTERNALS = {'recv_piece', 'return_all', 'from_recv_buffer',
+                    'add_lines', 'handle_finished_line'}
 
 
 def run(e: Engine, rep: Report):
@@ -49,6 +52,7 @@ def run(e: Engine, rep: Report):
     g3(e, rep, 'G3')
     g4(e, rep, 'G4')
     g5(e, rep, 'G5')
+    g6(e, rep, 'G6')
     rep.floor('G1', 6, 'buffer / socket access sites')
 
 
@@ -65,6 +69,10 @@ def rules(rep: Report):
              'lines are rewritten only while EOD is None')
     rep.rule('G5', 'when DataReader.recv can abort mid-message with an '
              'SmtpError, the server does not continue the session')
+    rep.rule('G6', 'the size limit is decided from the byte count alone, '
+             'before the piece is interpreted: add_lines(piece) is reached '
+             'only when the limit test failed; the test does not depend on '
+             'parser state')
     rep.tables.add('c09.RECV_BUFFER_WRITERS')
 
 
@@ -88,6 +96,22 @@ def g1(e: Engine, rep: Report, rule: str):
                               'buffer, so what the parser sees depends on '
                               'segmentation', loc=f.loc(n),
                               reason='only in IO.raw_recv')
+                if n.func.attr in READER_INTERNALS:
+                    ts = e.r.infer(n.func.value, ctx)
+                    if any(t[0] == 'inst' and t[1] == READER for t in ts) \
+                            or (not ts and n.func.attr in (
+                                'recv_piece', 'return_all',
+                                'from_recv_buffer')):
+                        rep.evaluations += 1
+                        rep.check(f.cls is not None and
+                                  f.cls.qname == READER, rule, f.qname,
+                                  'use of DataReader.%s' % n.func.attr,
+                                  'the DATA reader is driven step by step '
+                                  'from %s instead of through recv(): the '
+                                  'hand-over of already buffered bytes '
+                                  '(from_recv_buffer ... return_all) is no '
+                                  'longer guaranteed' % f.qname,
+                                  loc=f.loc(n), reason='inside DataReader')
                 if n.func.attr == 'raw_recv':
                     rep.evaluations += 1
                     rep.check(f.qname in RAW_RECV_CALLERS, rule, f.qname,
@@ -481,3 +505,47 @@ def g5(e: Engine, rep: Report, rule: str):
                   'commands' % ', '.join(sorted(toks)), loc=h.loc(),
                   reason='no normal return from the abort arm',
                   witness=dataflow.render_path(pth, 16) if pth else None)
+
+
+# ---------------------------------------------------------------------- G6
+def g6(e: Engine, rep: Report, rule: str):
+    ctx = e.method_ctx(READER, 'recv_piece')
+    g = e.build(ctx, raises=lambda b, n, r: set())
+    fx = e.facts(g)
+    where = ctx.func.qname
+    rep.functions.add(where)
+    raises = [n for n in g.of_kind('stmt') if isinstance(n.ast, ast.Raise)
+              and any(isinstance(l, tuple) and l[1].endswith(
+                  'MessageTooBig') for l, s in n.succ)]
+    adds = [n for n in g.calls() if e.call_name(n) == 'add_lines']
+    if not raises:
+        rep.ok(rule, where, 'no size limit in the reader',
+               reason='MessageTooBig is never raised', nontrivial=False)
+        return
+    if not adds:
+        rep.error('anchor vanished: add_lines in recv_piece')
+        return
+    limit_alts = [(False, 'self.max_size'),
+                  (True, 'self.size <= self.max_size')]
+    for n in adds:
+        rep.evaluations += 1
+        w = common.unguarded_path(e, g, n, limit_alts)
+        rep.check(w is None, rule, where,
+                  'a piece is interpreted only after it passed the size '
+                  'limit', 'add_lines(piece) can run before / without the '
+                  'size test: whether an over-size message is refused then '
+                  'depends on where the stream was cut (e.g. on whether the '
+                  'excess arrives together with the end-of-data line)',
+                  loc=n.loc(), reason='dominated by the failed limit test',
+                  witness=dataflow.render_path(w) if w else None)
+    for n in raises:
+        rep.evaluations += 1
+        st = fx.at(n) or frozenset()
+        dep = [k for p, k in st if 'EOD' in k or '.lines' in k or
+               'self.i ' in k]
+        rep.check(not dep, rule, where,
+                  'the limit does not depend on parser state',
+                  'MessageTooBig is raised only under %s: the decision '
+                  'depends on what the parser has seen so far, i.e. on the '
+                  'segmentation' % dep, loc=n.loc(),
+                  reason='guarded by size / max_size only')
